@@ -327,6 +327,16 @@ func (vc *VC) unop(fr *Frame, st *State, t *ssa.UnOp) {
 		v := vc.load(st, x, et)
 		v = vc.defVal(fr, t, v)
 		vc.q.Assert(Implies(st.reach, vc.wfAssume(st, v, et, 0)))
+		if g, ok := t.X.(*ssa.Global); ok && vc.eng.initNonNil(g) {
+			// set once by package initialisation to a freshly built value and never reassigned
+			switch v.Sort {
+			case SIface:
+				vc.q.Assert(Implies(st.reach, Not(Eq(ITyp(v), IntLit(0)))))
+			case SPtr:
+				vc.q.Assert(Implies(st.reach, Not(Eq(v, NilP))))
+			}
+			vc.assumed["package variable "+g.Pkg.Pkg.Path()+"."+g.Name()+" is set once by package initialisation and never nil afterwards (checked syntactically: no other store in its package)"] = true
+		}
 	case token.NOT:
 		fr.vals[t] = Not(x)
 	case token.SUB:
